@@ -73,8 +73,7 @@ Definition parse_whole (m : msg) (rx : bytes) : option (Z * msg) :=
     if r <? 0 then Some (r, m2) else
     let hb := zdrop cur rx in
     let hcap := u16 (m_cap m - cur) in
-    let next_byte := if zlen rx <? m_cap m then Some (m_fill m) else None in
-    match h_reset_parse hb hcap next_byte with
+    match h_reset_parse hb hcap with
     | None => None
     | Some None => Some (-1, m2)
     | Some (Some h) =>
@@ -138,29 +137,39 @@ Proof.
   - destruct (find_term rx); [|split; [reflexivity|intros _; reflexivity]].
     destruct (parse_start_line _ rx) as [[r cur] mm].
     destruct (r <? 0); [split; [reflexivity|intros _; reflexivity]|].
-    destruct (h_reset_parse _ _ _) as [[h|]|]; try exact I; split; try reflexivity; intros _; reflexivity.
+    destruct (h_reset_parse _ _) as [[h|]|]; try exact I; split; try reflexivity; intros _; reflexivity.
 Qed.
 
 (* ------------------------------------------------------------- findings ---- *)
-(* F-C13-2: for a header line without a colon the loop of HeadersBase::parse reads
-   m_buf[m_buf_size], a stale byte OUTSIDE the received message, and that byte decides
-   between "parsed" (0) and "error" (-1). *)
+(* F27 (fixed in /repo by `while (!p.is_done() && p[0] != '\r')`): before the fix, for a
+   header line without a colon the loop of HeadersBase::parse read m_buf[m_buf_size], a stale
+   byte OUTSIDE the received message, and that byte decided between "parsed" and "error". *)
 Definition ascii (s : String.string) : bytes := s2b s.
-Definition stale_msg : bytes := Eval compute in
-  ascii "HTTP/1.1 200 OK"%string ++ [13;10] ++ ascii "abc"%string ++ [13;10;13;10].
-Definition ret_of (o : option (Z * msg * pieces)) : Z :=
-  match o with Some (r, _, _) => r | None => -99 end.
+Definition stale_hdr : bytes := Eval compute in ascii "abc"%string ++ [13;10;13;10].
 
-Lemma parse_depends_on_stale_byte_refuted_proof :
-  exists (bytes : bytes) (fill1 fill2 : Z),
-    ret_of (receive_header 10 (msg_init false 16384 fill1 2) [bytes] false) = 0 /\
-    ret_of (receive_header 10 (msg_init false 16384 fill2 2) [bytes] false) = -1.
-Proof. exists stale_msg, 13, 65. split; vm_compute; reflexivity. Qed.
+Lemma header_parse_stale_byte_prefix_refuted_proof :
+  exists (hb : bytes) (b1 b2 : Z),
+    (exists kvs, parse_loop_prefix 100 hb 100 (Some b1) 0 [] = Some (Some kvs)) /\
+    parse_loop_prefix 100 hb 100 (Some b2) 0 [] = Some None.
+Proof. exists stale_hdr, 13, 65. split; [eexists|]; vm_compute; reflexivity. Qed.
+
+(* F28 (fixed by 'X' -> 'Z' in tolower_fast8): before the fix the header-name comparison was
+   not a strict weak order -- a cycle A < B < C < A -- so the sorted index could hide a header
+   from the binary search (implementation witness: Content-Length missed, notes/C13.md). *)
+Lemma header_compare_cyclic_prefix_refuted_proof :
+  exists a b c : bytes,
+    icmp_with lower8_prefix a b = -1 /\ icmp_with lower8_prefix b c = -1 /\ icmp_with lower8_prefix c a = -1.
+Proof.
+  exists (ascii "Yb234567"%string), (ascii "ya234567"%string), (ascii "yb"%string).
+  splits; vm_compute; reflexivity.
+Qed.
 
 (* F-C13-3: for byte strings that are NOT a well-formed message head the parse result
    depends on the fragmentation: the start-line / header parsers run over the whole
    received buffer, i.e. over however much of the bytes behind the terminator happened to
    arrive in the same recv(). *)
+Definition ret_of (o : option (Z * msg * pieces)) : Z :=
+  match o with Some (r, _, _) => r | None => -99 end.
 Definition frag_msg : bytes := Eval compute in
   ascii "GET /"%string ++ [13;10;13;10] ++ ascii "x HTTP/1.1"%string ++ [13;10] ++ ascii "foo: bar"%string ++ [13;10;13;10].
 Definition nkv_of (o : option (Z * msg * pieces)) : Z :=
